@@ -15,7 +15,7 @@
    keep o             :=  [w] if o = Some w and w has aligned pairs, [] otherwise (what `execute` keeps of a query's result). *)
 From Coq Require Import ZArith QArith List Bool Sorting.Permutation Sorting.Sorted.
 Import ListNotations.
-Require Import Py Pairing Core Multi Coordinator Peaks BestProofs1 BestProofs2 BestProofs3 BestProofs4 BestProofs5.
+Require Import Py Pairing Core Multi Coordinator Peaks BestProofs1 BestProofs2 BestProofs3 BestProofs4 BestProofs5 FreshProofs.
 Open Scope Z_scope.
 
 (* ---- filterOutSubsequentAlignmentsForSingleQuery ---- *)
@@ -107,7 +107,8 @@ Proof. exact (first_pass_record P seeds refs m maxdiff qa q qb o f). Qed.
    pass (rows1) OR the second pass (rows2) produced a row with pairs, each exactly once, ascending; and every record is either
    the best row of its query over both passes (a member of f1) or the join of that row x with the query's best second-pass
    row y (same reference, overlapping; the joined row has at least one pair — joined_ok, repair F9: a join without any pair is not
-   reported, its parts stay).  x = y is possible, see C05_best_mode_self_join below. *)
+   reported, its parts stay).  After repair F12 (`row not in filteredFirstPassRows`) x and y are different rows: x is a first-pass row
+   (AlignedRest False), y a second-pass row (AlignedRest True); see C05_best_mode_no_self_join below. *)
 Theorem C05_best_mode_total P (seeds : seeding) refs maxdiff qs o : program_run P seeds Best maxdiff refs qs = Ok o ->
   exists rows1 it1 frags rows2 it2,
     execute P seeds refs qs 1 = Ok (rows1, it1) /\ all_fragments rows1 qs = Ok frags /\
@@ -117,19 +118,51 @@ Theorem C05_best_mode_total P (seeds : seeding) refs maxdiff qs o : program_run 
     let f1 := filter_subsequent (rows1 ++ map set_rest rows2) in
     let f2 := filter_subsequent (map set_rest rows2) in
     forall w, In w (o_main o) ->
-      In w f1 \/ exists x y, In x f1 /\ In y f2 /\ qid x = qid w /\ qid y = qid w /\ rid x = rid y /\
+      In w f1 \/ exists x y, In x f1 /\ In y f2 /\ x <> y /\ rest x = false /\ rest y = true /\
+                             qid x = qid w /\ qid y = qid w /\ rid x = rid y /\
                              check_overlap x y maxdiff = true /\ join_rows x y = Ok w /\ joined_ok w = true.
 Proof. exact (best_mode_total P seeds refs maxdiff qs o). Qed.
 
-(* the self-join.  In 'best' mode first-pass and second-pass rows are concatenated BEFORE the filter, so when a query's best
-   row x over both passes is a second-pass row (AlignedRest = True) it is ALSO the query's row of the second-pass list: resolve
-   sees the group [x; x].  check_overlap x x only asks whether x's own reference span is <= maxdiff, and x.resolve(x) pairs the
-   FIRST segment of x with itself and drops every other segment of x. *)
-Theorem C05_best_mode_self_join P (seeds : seeding) refs qs it rows1 it1 rows2 x :
-  execute P seeds refs qs it = Ok (rows1, it1) ->
-  In x (filter_subsequent (rows1 ++ map set_rest rows2)) -> rest x = true -> In x (filter_subsequent (map set_rest rows2)).
-Proof. exact (best_mode_self_join P seeds refs qs it rows1 it1 rows2 x). Qed.
-Theorem C05_self_join_shape a d :
+(* no self-join (repair F12).  In 'best' mode first-pass and second-pass rows are concatenated BEFORE the filter, so when a query's
+   best row x over both passes is a second-pass row (AlignedRest = True) it is ALSO the query's row of the second-pass list f2.
+   resolve receives f1 ++ [row for row in f2 if row not in f1]: x is handed over ONCE — it is the only row of its query in that
+   list, its (reference, query) group is [x] — and the record of that query in the main file is x itself, the best candidate over
+   both passes.  (resolve_groups_of rows = the groups AlignmentResults.resolve forms, by reference id then query id.) *)
+Theorem C05_best_mode_no_self_join P (seeds : seeding) refs maxdiff qs o : program_run P seeds Best maxdiff refs qs = Ok o ->
+  exists rows1 it1 frags rows2 it2,
+    execute P seeds refs qs 1 = Ok (rows1, it1) /\ all_fragments rows1 qs = Ok frags /\
+    execute P seeds refs frags it1 = Ok (rows2, it2) /\
+    let f1 := filter_subsequent (rows1 ++ map set_rest rows2) in
+    let f2 := filter_subsequent (map set_rest rows2) in
+    let handed := f1 ++ filter (fun w => negb (row_in w f1)) f2 in
+    forall x, In x f1 -> rest x = true ->
+      In x f2 /\
+      filter (fun w => qid w =? qid x) handed = [x] /\
+      (forall g, In g (resolve_groups_of handed) -> In x g -> g = [x]) /\
+      filter (fun w => qid w =? qid x) (o_main o) = [x].
+Proof. exact (best_mode_no_self_join P seeds refs maxdiff qs o). Qed.
+
+(* ---- regression statements about the code BEFORE repair F12 ----
+   program_run_before_F12 (proofs/BestProofs3.v) is program_run with the old call `resolve(filteredFirstPassRows + filteredSecondPassRows)`;
+   outside 'best' mode it coincides with program_run.  There, such a row x was in both lists: resolve saw the group [x; x];
+   check_overlap x x only asks whether x's own reference span is <= maxdiff, and x.resolve(x) pairs the FIRST segment of x with
+   itself and drops every other segment of x. *)
+Theorem C05_before_F12_other_modes P (seeds : seeding) refs m maxdiff qs : m <> Best ->
+  program_run_before_F12 P seeds m maxdiff refs qs = program_run P seeds m maxdiff refs qs.
+Proof. exact (before_F12_same P seeds refs m maxdiff qs). Qed.
+Theorem C05_best_mode_self_join_before_F12 P (seeds : seeding) refs maxdiff qs o :
+  program_run_before_F12 P seeds Best maxdiff refs qs = Ok o ->
+  exists rows1 it1 frags rows2 it2 joined sep,
+    execute P seeds refs qs 1 = Ok (rows1, it1) /\ all_fragments rows1 qs = Ok frags /\
+    execute P seeds refs frags it1 = Ok (rows2, it2) /\
+    let f1 := filter_subsequent (rows1 ++ map set_rest rows2) in
+    let f2 := filter_subsequent (map set_rest rows2) in
+    results_resolve (f1 ++ f2) maxdiff = Ok (joined, sep) /\
+    o = mkOut (filter_subsequent (sort_by qid (joined ++ filter (fun w => negb (mem_z (qid w) (map qid joined))) f1))) None None /\
+    forall x, In x f1 -> rest x = true ->
+      In x f2 /\ filter (fun w => qid w =? qid x) (f1 ++ f2) = [x; x] /\ In [x; x] (resolve_groups_of (f1 ++ f2)).
+Proof. exact (best_mode_self_join_before_F12 P seeds refs maxdiff qs o). Qed.
+Theorem C05_self_join_shape_before_F12 a d :
   check_overlap a a d = (Z.abs (rs a - re a) <=? d) /\
   join_rows a a = (do _ <- first_pair_rpos a; do s <- seg0 a; do r <- resolve_pair s s;
                    Ok (row_create [fst r; snd r] (qid a) (rid a) (qlen a) (rlen a) (rrev a))).
@@ -170,30 +203,39 @@ Example C05_filter_example :
   [(1, 1, 0); (3, 1, 9); (7, 2, 8)].
 Proof. vm_compute. reflexivity. Qed.
 
-(* the self-join on a concrete run (one reference, one query of 8 labels, window 500 bp): the first pass aligns labels 5-7
+(* finding F12 on a concrete run (one reference, one query of 8 labels, window 500 bp): the first pass aligns labels 5-7
    (confidence 60000 = 3000.00), the second pass aligns the fragment of the first 7 labels in TWO segments (labels 1-4 and 5-7,
-   confidence 140000 = 7000.00), which is the query's best row over both passes and, with a reference span of 10600 bp <= maxdiff,
-   is joined WITH ITSELF: the 'best' record keeps only its first segment (confidence 80000 = 4000.00, 4 pairs).  Exactly one
-   record for the query, as C05 claims, but the record is neither the best candidate nor a join of two different rows.
-   With maxdiff below the span (second example) the record is the best row itself. *)
+   confidence 140000 = 7000.00), which is the query's best row over both passes.  BEFORE the repair, with a reference span of
+   10600 bp <= maxdiff, it was joined WITH ITSELF: the 'best' record kept only its first segment (confidence 80000 = 4000.00,
+   4 pairs).  AFTER the repair the record is the best row itself, whatever maxdiff. *)
 Example C05_self_join_separate : xshowo (program_run sP sseeds Separate 1000000 [sr1] [sq9]) =
   Some ([(9, 1, 60000, false, [(5, 5); (6, 6); (7, 7)])],
         Some [(9, 1, 140000, true, [(1, 1); (2, 2); (3, 3); (4, 4); (5, 5); (6, 6); (7, 7)])], None).
 Proof. vm_compute. reflexivity. Qed.
-Example C05_self_join_best : xshowo (program_run sP sseeds Best 1000000 [sr1] [sq9]) =
+Example C05_self_join_best_before_F12 : xshowo (program_run_before_F12 sP sseeds Best 1000000 [sr1] [sq9]) =
   Some ([(9, 1, 80000, false, [(1, 1); (2, 2); (3, 3); (4, 4)])], None, None).
 Proof. vm_compute. reflexivity. Qed.
-Example C05_no_self_join_best : xshowo (program_run sP sseeds Best 100000 [sr1] [sq9]) =
+Example C05_no_self_join_best : xshowo (program_run sP sseeds Best 1000000 [sr1] [sq9]) =
   Some ([(9, 1, 140000, true, [(1, 1); (2, 2); (3, 3); (4, 4); (5, 5); (6, 6); (7, 7)])], None, None).
 Proof. vm_compute. reflexivity. Qed.
-(* witness: the statement "the 'best' record of a query is its best row over both passes, or a join with at least that
-   confidence" (which C05 does NOT claim) is false of the code; found on real runs too, see harness/props/C05.py *)
-Theorem C05_self_join_witness : exists P (seeds : seeding) refs qs maxdiff o rows1 it1 frags rows2 it2 w x,
-  program_run P seeds Best maxdiff refs qs = Ok o /\ execute P seeds refs qs 1 = Ok (rows1, it1) /\
+Example C05_no_self_join_best_small_maxdiff : xshowo (program_run sP sseeds Best 100000 [sr1] [sq9]) =
+  Some ([(9, 1, 140000, true, [(1, 1); (2, 2); (3, 3); (4, 4); (5, 5); (6, 6); (7, 7)])], None, None).
+Proof. vm_compute. reflexivity. Qed.
+(* regression witness: BEFORE the repair the statement "the 'best' record of a query is its best row over both passes, or a join with
+   at least that confidence" was false of the code (found on real runs too, see harness/props/C05.py) ... *)
+Theorem C05_self_join_witness_before_F12 : exists P (seeds : seeding) refs qs maxdiff o rows1 it1 frags rows2 it2 w x,
+  program_run_before_F12 P seeds Best maxdiff refs qs = Ok o /\ execute P seeds refs qs 1 = Ok (rows1, it1) /\
   all_fragments rows1 qs = Ok frags /\ execute P seeds refs frags it1 = Ok (rows2, it2) /\
   o_main o = [w] /\ In x (map set_rest rows2) /\ qid x = qid w /\ conf w < conf x /\
   join_rows x x = Ok w.
-Proof. exact best_record_is_best_refuted. Qed.
+Proof. exact best_record_is_best_refuted_before_F12. Qed.
+(* ... and on the same data the repaired code reports the second-pass row x itself, which beats every first-pass row *)
+Theorem C05_no_self_join_witness : exists rows1 it1 frags rows2 it2 o x,
+  execute sP sseeds [sr1] [sq9] 1 = Ok (rows1, it1) /\ all_fragments rows1 [sq9] = Ok frags /\
+  execute sP sseeds [sr1] frags it1 = Ok (rows2, it2) /\
+  program_run sP sseeds Best 1000000 [sr1] [sq9] = Ok o /\
+  map set_rest rows2 = [x] /\ o_main o = [x] /\ (forall y, In y rows1 -> conf y < conf x).
+Proof. exact best_record_is_best_witness. Qed.
 
 Print Assumptions C05_filter_unique.
 Print Assumptions C05_filter_first_best_unique.
@@ -208,6 +250,9 @@ Print Assumptions C05_execute_rows.
 Print Assumptions C05_first_pass_rows.
 Print Assumptions C05_first_pass_record.
 Print Assumptions C05_best_mode_total.
-Print Assumptions C05_best_mode_self_join.
-Print Assumptions C05_self_join_shape.
-Print Assumptions C05_self_join_witness.
+Print Assumptions C05_best_mode_no_self_join.
+Print Assumptions C05_before_F12_other_modes.
+Print Assumptions C05_best_mode_self_join_before_F12.
+Print Assumptions C05_self_join_shape_before_F12.
+Print Assumptions C05_self_join_witness_before_F12.
+Print Assumptions C05_no_self_join_witness.
